@@ -16,7 +16,14 @@ import (
 	"golang.org/x/tools/go/ssa/ssautil"
 )
 
-const verifDir = "/verif"
+// verifDir: /verif, or the checkout the check script lives in (background runs from a
+// snapshot must not write into /verif)
+var verifDir = func() string {
+	if d := os.Getenv("VERIF_DIR"); d != "" {
+		return d
+	}
+	return "/verif"
+}()
 
 // altRepoFlags: with VERIF_REPO=<dir> the library is taken from <dir> instead of /repo
 // (used to run the checks against a scratch worktree with a seeded change, without
